@@ -21,7 +21,7 @@ from checks.common import PoolCheck, jcopy, short
 from pool.pool import schema_class
 from pool import families
 
-STEPS = ('use', 'use', 'build_again', 'clear_build', 'copy', 'pickle', 'maps_copy', 'failed_load_namespace', 'maps_copy_build')
+STEPS = ('use', 'use', 'build_again', 'clear_build', 'copy', 'pickle', 'maps_copy', 'failed_load_namespace', 'maps_copy_build', 'second_object')
 
 BROKEN_XSD = '''<xs:schema xmlns:xs="http://www.w3.org/2001/XMLSchema" targetNamespace="urn:broken" xmlns:b="urn:broken">
  <xs:element name="e" type="b:Missing"/>
@@ -274,6 +274,14 @@ class C09(PoolCheck):
                         junk.append(schema)
                         mc.build()
                         schema = mc.validator
+                    elif stage == 'second_object':
+                        # building twice: a second schema object from the same sources while the first is alive (other
+                        # addresses, after a seeded amount of unrelated allocations); the history goes on with it
+                        junk.append([object() for _ in range((case['hashseed'] * 7 + 13 * len(junk)) % 257)])
+                        junk.append(schema)
+                        schema = self.assemble(e, case['assembly'])
+                        if not schema.built:
+                            schema.build()
                     elif stage == 'pickle':
                         schema = pickle.loads(pickle.dumps(schema))
                     elif stage == 'failed_load_namespace':
